@@ -85,7 +85,10 @@ def build_obj(spec):
     if t == "vtiles":
         return VariableSizedTiles((tuple(spec["chunks"][0]), tuple(spec["chunks"][1])))
     if t == "gbtiles":
-        gb = GeoBox(tuple(spec["shape"]), Affine(*spec["affine"]), mk_crs_spec(spec["tag"]))
+        if spec.get("gcp_base") is not None:
+            gb = build_obj(spec["gcp_base"])
+        else:
+            gb = GeoBox(tuple(spec["shape"]), Affine(*spec["affine"]), mk_crs_spec(spec["tag"]))
         how = spec["how"]
         if isinstance(how[0], list):
             how = (tuple(how[0]), tuple(how[1]))
@@ -179,6 +182,8 @@ def families():
                      {"type": "gbtiles", "shape": [10, 10], "affine": aff, "tag": {"label": "3577", "spell": "int"}, "how": [4, 4]},
                      {"type": "gbtiles", "shape": [10, 10], "affine": [10.0, 0.0, 101.0, 0.0, -10.0, 500.0], "tag": {"label": "3857", "spell": "int"}, "how": [4, 4]},
                      {"type": "gbtiles", "shape": [10, 10], "affine": aff, "tag": {"label": "3857", "spell": "wkt2"}, "how": [4, 4]}]
+    # tiled GCP geoboxes: same shape, CRS and pixel affine, different control points -> unequal, so different tokens
+    F["gbtiles"] += [{"type": "gbtiles", "gcp_base": g, "how": h} for g in F["gcp"][:4] for h in ([2, 2], [[1, 2], [4]])]
     F["xy"] = [{"type": "xy", "cls": c, "x": x, "y": y} for c, x, y in
                (("XY", 1, 2), ("XY", 2, 1), ("XY", 1.0, 2.0), ("Index2d", 1, 2), ("Index2d", 2, 1), ("Shape2d", 1, 2), ("Shape2d", 2, 1), ("Resolution", 1, 2), ("Resolution", 1, -2), ("Resolution", 2, 1), ("XY", 1, 2.5), ("XY", -0.0, 0.0), ("XY", 0.0, 0.0))]
     g0 = {"type": "gridspec", "tag": {"label": "3857", "spell": "int"}, "tile_shape": [10, 10], "res": [10, -10], "origin": [0.0, 0.0], "flipx": False, "flipy": False}
